@@ -225,23 +225,27 @@ static void copy_authority(RUri &t, const RUri &s) {
     t.has_authority = s.has_authority; t.userinfo = s.userinfo; t.host = s.host; t.port = s.port; t.hostkind = s.hostkind;
     memcpy(t.ip, s.ip, 16);
 }
-bool resolve(const RUri &base, const RUri &rr, bool strict, RUri &t) {
+std::vector<Str> split_path(const Str &p, char sep) { std::vector<Str> v; Str cur; for (size_t i = 0; i < p.size(); i++) { if (p[i] == sep) { v.push_back(cur); cur.clear(); } else cur += p[i]; } v.push_back(cur); return v; }
+Str join_path(const std::vector<Str> &v) { Str o; for (size_t i = 0; i < v.size(); i++) { if (i) o += "/"; o += v[i]; } return o; }
+bool resolve(const RUri &base, const RUri &rr, bool strict, RUri &t, Str *pre_path, bool *dots_removed) {
     if (!base.scheme.present) return false;
+    Str pre_dummy; bool dr_dummy; if (!pre_path) pre_path = &pre_dummy; if (!dots_removed) dots_removed = &dr_dummy;
+    *dots_removed = true;
     RUri r = rr; t = RUri();
     if (!strict && r.scheme.present && r.scheme.text == base.scheme.text) r.scheme = Comp();
     if (r.scheme.present) {
-        t.scheme = r.scheme; copy_authority(t, r); t.path = remove_dot_segments(r.path); t.query = r.query;
+        t.scheme = r.scheme; copy_authority(t, r); *pre_path = r.path; t.path = remove_dot_segments(r.path); t.query = r.query;
     } else {
-        if (r.has_authority) { copy_authority(t, r); t.path = remove_dot_segments(r.path); t.query = r.query; }
+        if (r.has_authority) { copy_authority(t, r); *pre_path = r.path; t.path = remove_dot_segments(r.path); t.query = r.query; }
         else {
-            if (r.path.empty()) { t.path = base.path; t.query = r.query.present ? r.query : base.query; }
+            if (r.path.empty()) { t.path = base.path; *pre_path = base.path; *dots_removed = false; t.query = r.query.present ? r.query : base.query; }
             else {
-                if (r.path[0] == '/') t.path = remove_dot_segments(r.path);
+                if (r.path[0] == '/') { *pre_path = r.path; t.path = remove_dot_segments(r.path); }
                 else {
                     Str merged;
                     if (base.has_authority && base.path.empty()) merged = "/" + r.path;
                     else { size_t p = base.path.rfind('/'); merged = (p == Str::npos ? Str() : base.path.substr(0, p + 1)) + r.path; }
-                    t.path = remove_dot_segments(merged);
+                    *pre_path = merged; t.path = remove_dot_segments(merged);
                 }
                 t.query = r.query;
             }
@@ -251,6 +255,24 @@ bool resolve(const RUri &base, const RUri &rr, bool strict, RUri &t) {
     }
     t.fragment = r.fragment;
     t.scheme.off = t.userinfo.off = t.host.off = t.port.off = t.query.off = t.fragment.off = -1;
+    return true;
+}
+
+bool resolve_expected(const RUri &base, const RUri &r, bool strict, Expected &e) {
+    Str pre; bool dr = false; e = Expected();
+    if (!resolve(base, r, strict, e.t, &pre, &dr)) return false;
+    if (!dr) { e.regime = 3; e.path = e.t.path; return true; }
+    if (!pre.empty() && pre[0] != '/') {
+        e.regime = 2;
+        std::vector<Str> E = remove_dots_list(split_path(pre), false);
+        e.path = join_path(E);
+        if (E.size() > 1 && E[0].empty()) { e.has_alt = true; e.alt_path = "./" + e.path; e.alt_path = "." + Str("/") + e.path; }
+        e.t.path = e.path;
+        return true;
+    }
+    e.regime = 1; e.path = e.t.path;
+    if (!e.t.has_authority && e.path.compare(0, 2, "//") == 0) e.path = "/." + e.path;
+    e.t.path = e.path;
     return true;
 }
 
